@@ -371,9 +371,69 @@ theorem compress_leaves_only_archive (H : Bytes → Bytes) (comp : Bytes → Byt
               fs_openOut_get_ne fs1 fs2 _ p _ ht hpt, fs_openOut_get_ne fs fs1 _ p _ ho hp]
         · rw [← fs_openOut_get_ne fs fs1 _ c.input _ ho hio, hin]
           rfl
-        · rw [fs_remove_get_ne _ _ _ (Ne.symm hto), fs_set_get_same, fs_set_get_same]
+        · have h1 : fs1.get c.temp = none := by
+            rw [fs_openOut_get_ne fs fs1 _ c.temp _ ho hto, htmp]
+          have h2 : fs2.get c.temp = some (.regular []) := by
+            unfold Fs.openOut at ht
+            rw [h1] at ht
+            dsimp only at ht
+            split at ht
+            · cases ht
+              exact fs_set_get_same _ _ _
+            · cases ht
+          rw [fs_remove_get_ne _ _ _ (Ne.symm hto), fs_set_get_same, fs_set_get_same]
           unfold createArchive
-          rw [hd]
+          rw [hd, h2]
+          simp [Node.data]
+
+/-- C11 / C16: a stale temp file (left by an earlier, killed compress) does not leak into the
+archive: the temp file is opened with `truncate(true)` (read from the source), so the archive
+is the one of the sequential model and the temp file is gone afterwards. -/
+theorem compress_ignores_stale_temp (H : Bytes → Bytes) (comp : Bytes → Bytes) (c : CompressCmd) (fs : Fs)
+    (old : Bytes) (htmp : fs.get c.temp = some (.regular old))
+    (hdistinct : c.temp ≠ c.output ∧ c.input ≠ c.output ∧ c.input ≠ c.temp)
+    (hflush : cliTempFlushedBeforeReturn = true) :
+    let r := Cli.compress H comp c fs
+    r.ok = true →
+      r.fs.get c.temp = none ∧
+      (∃ src, (fs.get c.input).map (·.data) = some src ∧
+        r.fs.get c.output = some (.regular (createArchive H "cli" comp c.opts src))) := by
+  obtain ⟨hto, hio, _⟩ := hdistinct
+  dsimp only
+  unfold Cli.compress
+  rw [compressOpen_flags, tempOpen_flags]
+  dsimp only
+  cases ho : fs.openOut c.output (compressFlags c.flags) with
+  | none => simp
+  | some fs1 =>
+    dsimp only
+    cases hin : fs1.get c.input with
+    | none => simp
+    | some inode =>
+      dsimp only
+      cases ht : fs1.openOut (c.temp) tempFlags with
+      | none => simp
+      | some fs2 =>
+        dsimp only
+        intro _
+        generalize hd : dictionaryOf H "cli" comp c.opts inode.data = ds
+        obtain ⟨dict, stored⟩ := ds
+        dsimp only
+        simp only [hflush, if_true]
+        refine ⟨fs_remove_get_same _ _, inode.data, ?_, ?_⟩
+        · rw [← fs_openOut_get_ne fs fs1 _ c.input _ ho hio, hin]
           rfl
+        · have h1 : fs1.get c.temp = some (.regular old) := by
+            rw [fs_openOut_get_ne fs fs1 _ c.temp _ ho hto, htmp]
+          have h2 : fs2.get c.temp = some (.regular []) := by
+            unfold Fs.openOut at ht
+            rw [h1] at ht
+            simp [tempFlags] at ht
+            subst ht
+            exact fs_set_get_same _ _ _
+          rw [fs_remove_get_ne _ _ _ (Ne.symm hto), fs_set_get_same, fs_set_get_same]
+          unfold createArchive
+          rw [hd, h2]
+          simp [Node.data]
 
 end Bita.Proofs
